@@ -315,10 +315,10 @@ Example C03_example_handshake :
   ex_flags st1 0 = (true, false, 777, 1000) /\
   ex_flags (fst (ex_step true st1 (EDns 1001 0 (ex_L ex_A 0 777)))) 0 = (true, true, 777, 1001) /\
   ex_flags (fst (ex_step true st1 (EDns 1001 0 (ex_L ex_A 0 778)))) 0 = (true, false, 777, 1001) /\
-  ex_step true st1 (EDns 1001 0 (ex_L ex_B 0 777)) = (st1, [mk_answer (ex_L ex_B 0 777) s_BADIP 84]) /\
+  ex_res (ex_step true st1 (EDns 1001 0 (ex_L ex_B 0 777))) = (ex_sig st1, [mk_answer (ex_L ex_B 0 777) s_BADIP 84]) /\
   ex_flags (fst (ex_step false st1 (EDns 1001 0 (ex_L ex_B 0 777)))) 0 = (true, true, 777, 1001) /\
-  ex_step true st1 (EDns 1001 0 (ex_L ex_A 128 777)) = (st1, [mk_answer (ex_L ex_A 128 777) s_BADIP 84]) /\
-  ex_step true st1 (EDns 1001 0 (ex_L ex_A 16 777)) = (st1, [mk_answer (ex_L ex_A 16 777) s_BADIP 84]) /\
+  ex_res (ex_step true st1 (EDns 1001 0 (ex_L ex_A 128 777))) = (ex_sig st1, [mk_answer (ex_L ex_A 128 777) s_BADIP 84]) /\
+  ex_res (ex_step true st1 (EDns 1001 0 (ex_L ex_A 16 777))) = (ex_sig st1, [mk_answer (ex_L ex_A 16 777) s_BADIP 84]) /\
   dispatch (ex_c true) (ex_L ex_A 0 777) = Some 33%nat /\ named_user (ex_L ex_A 128 777) 33 = Some (-128)%Z.
 Proof. vm_compute. repeat split; reflexivity. Qed.
 
